@@ -1595,3 +1595,14 @@ class ApplicationEntity:
         invalid = [ii for ii in contexts if not isinstance(ii, PresentationContext)]
         if invalid:
             raise ValueError("'contexts' must be a list of PresentationContext items")
+
+        # PS3.8 Table 9-13: each requested presentation context shall contain
+        #   one abstract syntax and one or more transfer syntaxes
+        incomplete = [
+            ii for ii in contexts if not ii.abstract_syntax or not ii.transfer_syntax
+        ]
+        if incomplete:
+            raise ValueError(
+                "Each requested presentation context must have an abstract syntax "
+                "and at least one transfer syntax"
+            )
